@@ -27,6 +27,10 @@ CLAIMED['C08'] = dict(
    text='Machine-checked frame theorem (Coq) for the synchronous fragment in full generality: for every table of contracted plain functions (bodies and validators arbitrary user code, recursion and nesting of any depth, any registry and any shared or distinct has() patcher), whatever the outcome at every node, once the outermost call finished the switch, sys.stdout, sys.stderr, socket.socket and every patcher depth are what they were -- proved by induction on fuel and on the program, through the wrapper _run_sync and patch/unpatch as regenerated from the source on every run. Generators, coroutines, dispatch, tracing and the CLI helpers are covered by the correspondence check (random call trees with exceptions injected at validator / body / yield positions, abandoned and closed generators; model vs real deal) and by the snapshot monitor, not by the theorem.',
    design_ref='DESIGN.md 4.8', note=GENERIC_NOTE + ' Partial: the theorem covers plain functions; generators / coroutines / dispatch / trace / memtest restoration is decided by differential testing and the monitor only.',
    technique='Coq frame theorem over wrappers regenerated from source + differential correspondence + snapshot monitor')
+CLAIMED['C04'] = dict(
+   text='Machine-checked theorems over ALL marker lists (custom markers included): the has_* predicates regenerated from _has_patcher.py, the coverage decision of CheckMarkers regenerated from linter/_rules.py and the table + runtime bullets parsed from docs/basic/side-effects.md on every run all equal one reference implication table (io covers every I/O sub-marker; the four aliases); patching replaces stdout / stderr / socket iff the marker list lacks io/print/stdout, io/stderr, io/network/socket and installs the documented or configured error; an allowed effect reaches the real stream unchanged. Tied to the code by regeneration, by correspondence on every subset of the 16 known markers (exhaustive 2^16 in the thorough tier) for 9 runtime predicates and 12 linter decisions, by has(M) x effect x kind x customisation scenarios, and by the real linter on generated sources.',
+   design_ref='DESIGN.md 4.4', note=GENERIC_NOTE,
+   technique='Coq proof over predicates/tables regenerated from source and docs + exhaustive correspondence')
 UNCLAIMED_REASON = 'not claimed yet: the Coq model and check for this property are still under construction in this round (no technique switch intended)'
 checks, na = [], []
 for p in props:
